@@ -165,14 +165,15 @@ Print Assumptions C05_actual_partial.
 Theorem C05_generated_layer :
   discovery_order = [".thailint.yaml"; ".thailint.json"] /\ pyproject_name = "pyproject.toml"
   /\ pyproject_table = ["tool"; "thailint"] /\ (norm_from = "-" /\ norm_to = "_")
+  /\ (file_parser_normalises = true /\ pyproject_parser_normalises = true)
   /\ valid_suffixes = doc_valid_suffixes /\ map row_proj cli_overrides = doc_cli_opts
   /\ (value_error_reraised = true /\ error_exit_code = 2 /\ exit_with_violations = 1 /\ exit_clean = 0)
   /\ (forall u, In u units -> with_enabled (gen_opts u) = doc_opts u)
   /\ (forall u, In u units -> guards_of guards u = doc_guards u)
   /\ (forall u, In u units -> gen_lang_opts u ++ doc_extra_lang_opts u = doc_lang_opts u).
 Proof.
-  exact (conj F_discovery (conj F_pyname (conj F_pytable (conj F_norm (conj F_suffixes (conj F_cli (conj F_errors
-        (conj F_opts (conj F_guards F_lang))))))))).
+  exact (conj F_discovery (conj F_pyname (conj F_pytable (conj F_norm (conj F_parsers (conj F_suffixes (conj F_cli (conj F_errors
+        (conj F_opts (conj F_guards F_lang)))))))))).
 Qed.
 Print Assumptions C05_generated_layer.
 
